@@ -18,12 +18,20 @@ def main():
     ap.add_argument('--only', help='comma-separated scenario indices')
     a = ap.parse_args()
     if a.replay:
+        import json
+        with open(a.replay) as fh:
+            pid = json.load(fh).get('property', '')
+        rmod = __import__('props.' + pid.lower(), fromlist=['x'])
+        if hasattr(rmod, 'replay'):
+            return rmod.replay(a.replay)
         return engine.replay(a.replay, a.flex)
     if not a.prop:
         ap.error('property id required')
     mod = __import__('props.' + a.prop.lower(), fromlist=['x'])
     tier = a.tier if a.tier in ('quick', 'thorough') else 'quick'
     only = [int(x) for x in a.only.split(',')] if a.only else None
+    if hasattr(mod, 'run'):
+        return mod.run(tier, common.seed_from_env())
     return engine.run_check(mod, tier, common.seed_from_env(), only)
 
 
